@@ -845,6 +845,25 @@ def barrier_scenarios(rng, p):
     return [sc]
 
 
+def late_fault_scenarios(rng, p):
+    """A function that is already running when the context is cancelled, and panics (or fails) afterwards:
+    the panic must still be contained (C04), nothing may be lost or reported twice (C18)."""
+    out = []
+    cands = [(u, i) for u, i in insts(p) if u["kind"] in ("task", "ptask", "selem", "melem") and not u["pred"]]
+    if not cands:
+        return out
+    u, i = rng.choice(cands)
+    k = str(u["id"]) if i < 0 else "%d:%d" % (u["id"], i)
+    sc = gen_scenario(rng, p, "ok")
+    sc["out"] = {k: "panic"}
+    sc["panick"] = {k: rng.choice(["str", "err", "rt"])}
+    sc["delayus"] = {k: 600}
+    sc["cancel"], sc["cancelus"] = "timer", 60
+    sc["conc"] = max(sc["conc"], 2)
+    out.append(sc)
+    return out
+
+
 def fault_scenarios(rng, p):
     """Single-fault enumeration: for every user function instance one scenario in which only it
     panics, and (if it can return an error) one in which only it fails; for predicates also one
